@@ -27,6 +27,9 @@ fam({'C13': ('main', 'all')},
 fam({'C15': ('main', 'all')},
     driver='notifier', tv='NotifierTV', mc_quick=[('NotifierMC', 'NotifierMC_quick')], mc_thorough=[('NotifierMC', 'NotifierMC_big')],
     n=(70, 120, 2000, 4000))
+fam({'C14': ('main', 'all')},
+    driver='workers', tv='WorkersTV', mc_quick=[('WorkersL2', 'WorkersL2')], mc_thorough=[('WorkersL2', 'WorkersL2_big')],
+    n=(60, 200, 1500, 5000))
 
 
 def sig_of(rej):
